@@ -218,7 +218,7 @@ func (e *Engine) isMatchBoundedBacktracker(haystack []byte) bool {
 	// For Issue #79 pattern ^/.*[\w-]+\.php, ASCII NFA has 14 states vs 39 states.
 	if e.asciiBoundedBacktracker != nil && simd.IsASCII(haystack) {
 		if !e.asciiBoundedBacktracker.CanHandle(len(haystack)) {
-			return e.pikevm.IsMatch(haystack)
+			return e.pikevmIsMatch(haystack)
 		}
 		// Use ASCII backtracker directly (no pooled state needed - it's independent)
 		return e.asciiBoundedBacktracker.IsMatch(haystack)
@@ -226,7 +226,7 @@ func (e *Engine) isMatchBoundedBacktracker(haystack []byte) bool {
 
 	if !e.boundedBacktracker.CanHandle(len(haystack)) {
 		// Input too large for bounded backtracker, fall back to PikeVM
-		return e.pikevm.IsMatch(haystack)
+		return e.pikevmIsMatch(haystack)
 	}
 
 	// Use pooled state for thread-safety
